@@ -89,6 +89,10 @@ fn gen_text(lang: &'static LangSig, r: &mut Rng, depth: usize, pattern: bool, va
     base
 }
 
+fn rseed_below(t: &str, n: usize, salt: usize) -> usize {
+    (crate::rng::fnv(&format!("{t}#{salt}")) % (n as u64)) as usize
+}
+
 fn re_wf<L: Language>(re: &RecExpr<L>) -> bool {
     re.node.applied_id_occurrences().len() == re.children.len() && re.children.iter().all(re_wf)
 }
@@ -185,6 +189,49 @@ fn lang_case<L: Language + 'static>(lang: &'static LangSig, r: &mut Rng, out: &m
             }
             if format!("{:?}", x) != t0 {
                 return Err(("debug-print".into(), format!("Debug of {t0} is {:?}", x)));
+            }
+            // the same term over slots made through the API (numeric slots up to 2^30 - 1, fresh slots) instead of parsed names
+            let mut olds: Vec<Slot> = vec![];
+            fn collect<L: Language>(x: &RecExpr<L>, out: &mut Vec<Slot>) {
+                for s in x.node.all_slot_occurrences() {
+                    if !out.contains(&s) {
+                        out.push(s);
+                    }
+                }
+                for c in &x.children {
+                    collect(c, out);
+                }
+            }
+            collect(&x, &mut olds);
+            if !olds.is_empty() {
+                let mut cands: Vec<Slot> = [(1u32 << 29) - 1, 1 << 29, (1 << 29) + 1, (1 << 30) - 1, (1 << 30) - 2, 123456789, 99999, 1 << 20].iter().map(|k| Slot::numeric(*k)).collect();
+                for _ in 0..4 {
+                    cands.push(Slot::fresh());
+                }
+                // injective, the targets are not slots of the term itself
+                cands.retain(|c| !olds.contains(c));
+                if cands.len() >= olds.len() {
+                    let mut idx: Vec<usize> = (0..cands.len()).collect();
+                    for i in (1..idx.len()).rev() {
+                        idx.swap(i, rseed_below(&t0, i + 1, i));
+                    }
+                    let m: std::collections::HashMap<Slot, Slot> = olds.iter().enumerate().map(|(i, o)| (*o, cands[idx[i]])).collect();
+                    fn map_slots<L: Language>(x: &RecExpr<L>, m: &std::collections::HashMap<Slot, Slot>) -> RecExpr<L> {
+                        let mut n = x.node.clone();
+                        for s in n.all_slot_occurrences_mut() {
+                            if let Some(t) = m.get(s) {
+                                *s = *t;
+                            }
+                        }
+                        RecExpr { node: n, children: x.children.iter().map(|c| map_slots(c, m)).collect() }
+                    }
+                    let y = map_slots(&x, &m);
+                    let ty = y.to_string();
+                    let y2 = RecExpr::<L>::parse(&ty).map_err(|e| ("printed-term-rejected".to_string(), format!("{ty} (built through the API): {e:?}")))?;
+                    if y2 != y {
+                        return Err(("term-roundtrip-api-slots".into(), format!("parse(print(y)) != y for y = {ty}, built from {t0} by renaming its slots to numeric / fresh slots made through the API")));
+                    }
+                }
             }
             Ok(())
         });
